@@ -30,15 +30,21 @@ func (c *Conn) handleCopy(tag string, dec *imapwire.Decoder, numKind NumKind) er
 }
 
 func (c *Conn) writeCopyOK(tag string, data *imap.CopyData) error {
-	enc := newResponseEncoder(c)
-	defer enc.end()
-
+	// COPYUID can only be sent if some messages were actually copied: empty
+	// UID sets cannot be represented
+	hasCopyUID := data != nil && len(data.SourceUIDs) > 0 && len(data.DestUIDs) > 0
 	if tag == "" {
+		if !hasCopyUID {
+			return nil
+		}
 		tag = "*"
 	}
 
+	enc := newResponseEncoder(c)
+	defer enc.end()
+
 	enc.Atom(tag).SP().Atom("OK").SP()
-	if data != nil {
+	if hasCopyUID {
 		enc.Special('[')
 		enc.Atom("COPYUID").SP().Number(data.UIDValidity).SP().NumSet(data.SourceUIDs).SP().NumSet(data.DestUIDs)
 		enc.Special(']').SP()
